@@ -109,6 +109,14 @@ def accumulate_clause(I, pt, k, absent0, old, absent1, new, c, m):
 def contract_compute_synthetic_partials(ct, I, o, args, kwargs):
     acc, m = args[0], args[1]
     d = acc.fields["_synthetic_partials"]
+    acc.fields["_synthetic_partials"] = post_state_dict(ct, I, o, d, m)
+    I.heap_log.append(("mutate-acc", acc, None, I.where()))
+    return None
+
+
+def post_state_dict(ct, I, o, d, m):
+    """The accumulator dict after `o._compute_synthetic_partials(acc, m)` started from dict d,
+    as given by the contract (state produced per name on demand)."""
     tag = I.path.fresh_name(f"acc<{o.name}>")
 
     def state(I2, k):
@@ -125,9 +133,7 @@ def contract_compute_synthetic_partials(ct, I, o, args, kwargs):
             I3.path.assume(accumulate_clause(I3, pt, k, absent0, old, absent1, new, o, m))
         new.ghost.setdefault("on_den", []).append(link)
         return (absent1, new)
-    acc.fields["_synthetic_partials"] = SDict(base=SynthBase(tag, state))
-    I.heap_log.append(("mutate-acc", acc, None, I.where()))
-    return None
+    return SDict(base=SynthBase(tag, state))
 
 
 def final_views(I, d, k):
